@@ -37,13 +37,15 @@ def equilibrium_residual(rc, c0, stoich, K, activity_product=None):
 def _get_rc_interval(stoich, c0):
     """get reaction coordinate interval"""
     limits = c0 / stoich
-    if np.any(limits < 0):
-        upper = -np.max(limits[np.argwhere(limits < 0)])
+    # A species that is absent (limit == 0) is limiting too: the reaction
+    # cannot proceed in the direction that would consume it.
+    if np.any(stoich < 0):
+        upper = -np.max(limits[np.argwhere(stoich < 0)])
     else:
         upper = 0
 
-    if np.any(limits > 0):
-        lower = -np.min(limits[np.argwhere(limits > 0)])
+    if np.any(stoich > 0):
+        lower = -np.min(limits[np.argwhere(stoich > 0)])
     else:
         lower = 0
 
